@@ -566,7 +566,17 @@ func c13lock(c *Ctx) {
 			}
 		}
 	}
-	c.Describe("member=lock tasks=%d frag=%d progs=%v policy=%s", nTasks, sink.Frag, progs, r.Policy)
+	// one run in three: the locked syncer is reached on two paths - directly, and
+	// as a member of a combined syncer next to a healthy sink; calls on either
+	// path exclude each other at the device
+	paths := []zapcore.WriteSyncer{locked}
+	if g.Chance(3) {
+		other := zsim.NewSimSink(r, "other", 1, 7)
+		r.Label(unsafe.Pointer(other), "other")
+		paths = append(paths, zap.CombineWriteSyncers(locked, other))
+		c.R.Probe("a locked syncer reached directly and through a combined syncer")
+	}
+	c.Describe("member=lock tasks=%d frag=%d progs=%v paths=%d policy=%s", nTasks, sink.Frag, progs, len(paths), r.Policy)
 	results := make([][]c13res, nTasks)
 	for t := range progs {
 		t := t
@@ -575,10 +585,10 @@ func c13lock(c *Ctx) {
 				if o.kind == 'W' {
 					p := bytes.Repeat([]byte{byte('a' + t)}, o.n)
 					p[0] = byte('0' + i)
-					n, err := locked.Write(p)
+					n, err := paths[(t+i)%len(paths)].Write(p)
 					results[t] = append(results[t], c13res{'W', n, err})
 				} else {
-					err := locked.Sync()
+					err := paths[(t+i)%len(paths)].Sync()
 					results[t] = append(results[t], c13res{'S', 0, err})
 				}
 				zsim.Yield(zsim.KOp, nil)
